@@ -613,14 +613,14 @@ func runGeneric(c *Ctx, spec *PropSpec) {
 	}
 	c.Pass(spec.ID+".G5", strings.Join(pkgs, ",")+":appends-in-loops", 0, fmt.Sprintf("%d append-in-loop sites judged", napp))
 	// G6
-	c.Rule(spec.ID+".G6", "no signed remainder of a converted unsigned 64-bit value (int(h) % n can be negative)", 1)
+	c.Rule(spec.ID+".G6", "no signed remainder of a value that can be negative: a converted unsigned 64-bit value (int(h) % n) or a wrapping signed 32-bit counter (atomic.AddInt32)", 1)
 	nrem := 0
 	for _, fn := range fns {
 		fs, k := negativeRemainders(fn)
 		nrem += k
 		ord := ordCounter{}
 		for _, f := range fs {
-			c.Fail(spec.ID+".G6", ord.next(fn, "negative-remainder"), f.pos, fmt.Sprintf("%s takes the remainder of an unsigned 64-bit value after converting it to a signed integer: for values with the top bit set the conversion is negative and Go's %% keeps the sign, so the result used as an index or offset can be negative - with a hash as input that is about half of all keys", fn.Name()))
+			c.Fail(spec.ID+".G6", ord.next(fn, "negative-remainder"), f.pos, fmt.Sprintf("%s takes the remainder of a value that can be negative (an unsigned 64-bit value converted to a signed integer, or a signed 32-bit counter stepped with atomic.AddInt32, which wraps after 2^31 steps): Go's %% keeps the sign of the dividend, so the result used as an index or offset can be negative - with a hash as input that is about half of all keys, with a wrapped round-robin counter every pick of the next 2^31", fn.Name()))
 		}
 	}
 	c.Pass(spec.ID+".G6", strings.Join(pkgs, ",")+":remainders", 0, fmt.Sprintf("%d remainder operations judged", nrem))
@@ -1010,6 +1010,27 @@ func negativeRemainders(fn *ssa.Function) (out []g6Finding, sites int) {
 			return
 		}
 		sites++
+		// a signed counter stepped with atomic.AddInt32/AddInt64 wraps to negative values: its remainder is negative too
+		{
+			x := bo.X
+			for {
+				if cv, isC := x.(*ssa.Convert); isC {
+					if b, isB := cv.X.Type().Underlying().(*types.Basic); isB && b.Info()&types.IsUnsigned != 0 {
+						break
+					}
+					x = cv.X
+					continue
+				}
+				break
+			}
+			if call, isCall := x.(*ssa.Call); isCall {
+				// (a 64-bit counter needs 2^63 steps to wrap - not reachable; a 32-bit one wraps within weeks at 1000 steps/s)
+				if n := calleeName(call.Common()); n == "sync/atomic.AddInt32" {
+					out = append(out, g6Finding{fn, bo.Pos()})
+					return
+				}
+			}
+		}
 		cv, ok := bo.X.(*ssa.Convert)
 		if !ok {
 			return
